@@ -449,6 +449,24 @@ instantiate(const CPPTemplateParameterList *actual_params,
          << "<" << *actual_params << ">\n";
   */
 
+  // An instantiation may require further instantiations, and a template like
+  // "template<class T> struct G { enum { v = G<T*>::v }; };" requires them
+  // without end.  Like a compiler, give up at some depth.
+  static const int max_instantiation_depth = 256;
+  static int instantiation_depth = 0;
+  if (instantiation_depth >= max_instantiation_depth) {
+    if (error_sink != nullptr) {
+      error_sink->error("template instantiation depth exceeds maximum of 256 "
+                        "instantiating " + get_local_name());
+    }
+    return this_scope;
+  }
+  struct DepthGuard {
+    int &_depth;
+    DepthGuard(int &depth) : _depth(depth) { ++_depth; }
+    ~DepthGuard() { --_depth; }
+  } depth_guard(instantiation_depth);
+
   // Build the mapping of formal parameters to actual parameters.
   CPPTemplateScope *tscope = _parent_scope->as_template_scope();
   CPPDeclaration::SubstDecl subst;
